@@ -1,1 +1,71 @@
-fn main(){}
+//! vcheck: bounded exhaustive exploration of serde_avro_fast against a reference model.
+//! Usage: vcheck <PROPERTY> --tier quick|thorough [--replay FILE]
+
+mod c01;
+mod envs;
+mod explore;
+mod gen;
+mod obs;
+mod pres;
+mod report;
+mod subj;
+
+#[global_allocator]
+static ALLOC: envs::CountingAlloc = envs::CountingAlloc;
+
+fn main() {
+	let args: Vec<String> = std::env::args().collect();
+	if args.len() < 2 {
+		eprintln!("usage: vcheck <PROPERTY> --tier quick|thorough [--replay FILE]");
+		std::process::exit(2);
+	}
+	let prop = args[1].clone();
+	let mut tier = std::env::var("VERIF_TIER").unwrap_or_else(|_| "quick".to_owned());
+	let mut replay: Option<String> = None;
+	let mut i = 2;
+	while i < args.len() {
+		match args[i].as_str() {
+			"--tier" => {
+				tier = args[i + 1].clone();
+				i += 2;
+			}
+			"--replay" => {
+				replay = Some(args[i + 1].clone());
+				i += 2;
+			}
+			other => {
+				eprintln!("unknown argument {other}");
+				std::process::exit(2);
+			}
+		}
+	}
+	if tier != "quick" && tier != "thorough" {
+		eprintln!("tier must be quick or thorough");
+		std::process::exit(2);
+	}
+	subj::quiet_panics();
+	if let Some(file) = replay {
+		let text = std::fs::read_to_string(&file).unwrap_or_else(|e| {
+			eprintln!("cannot read {file}: {e}");
+			std::process::exit(2)
+		});
+		let v: serde_json::Value = serde_json::from_str(&text).expect("replay file is JSON");
+		let code = match prop.as_str() {
+			"C01" => c01::replay(&v),
+			_ => {
+				eprintln!("no replay for {prop}");
+				2
+			}
+		};
+		std::process::exit(code);
+	}
+	let mut rep = report::Report::new(&prop, &tier);
+	match prop.as_str() {
+		"C01" => c01::run(&mut rep),
+		_ => {
+			eprintln!("unknown property {prop}");
+			std::process::exit(2);
+		}
+	}
+	std::process::exit(rep.finish());
+}
